@@ -282,3 +282,60 @@ def run(ctx):
     ok = {"str", "dict", "list"} <= shapes
     c.ob("R4", ok, nt, "transition-spellings", "string, object and list transition spellings are all normalised" if ok else
          f"_normalize_transitions handles only {sorted(shapes)}", nt.node)
+
+
+_run_before_r11 = run
+
+
+def run(ctx):
+    _run_before_r11(ctx)
+    # ---- R11 elements of a raw config container are used with a required shape only behind a shape test ----------------------------
+    # (R3 covers the value read off the config; this covers what iterating that value yields: the child states of 'states', the entries
+    #  of 'on' ... - a JSON value of the wrong type there must not surface as a raw AttributeError from '<element>.get')
+    from sa.util import expr_level_guards
+    c, p = ctx.c, ctx.p
+    n = 0
+    for f in p.funcs_in("models", "factory"):
+        raw_locals = set()
+        for a in own_nodes(f.node):
+            if isinstance(a, (ast.Assign, ast.AnnAssign)) and getattr(a, "value", None) is not None and any(_is_cfg_get(y) for y in ast.walk(a.value)):
+                t = a.targets[0] if isinstance(a, ast.Assign) else a.target
+                if isinstance(t, ast.Name) and not any(isinstance(y, ast.Call) and norm(y.func).endswith(("_ensure_list", "_normalize_transitions")) for y in ast.walk(a.value)):
+                    raw_locals.add(t.id)
+        if not raw_locals:
+            continue
+        for x in own_nodes(f.node):
+            if not isinstance(x, (ast.For, ast.comprehension)):
+                continue
+            it = x.iter
+            via = None
+            base = it
+            if isinstance(it, ast.Call) and isinstance(it.func, ast.Attribute) and it.func.attr in ("items", "values") and not it.args:
+                via, base = it.func.attr, it.func.value
+            if not (isinstance(base, ast.Name) and base.id in raw_locals):
+                continue
+            tgt = x.target
+            if via == "items":
+                if not (isinstance(tgt, ast.Tuple) and len(tgt.elts) == 2 and isinstance(tgt.elts[1], ast.Name)):
+                    continue
+                elem = tgt.elts[1].id
+            elif isinstance(tgt, ast.Name) and via == "values":
+                elem = tgt.id
+            else:
+                continue        # iterating a mapping yields its keys (strings)
+            if isinstance(x, ast.For):
+                scope = list(x.body)
+            else:
+                owner = next((y for y in own_nodes(f.node) if isinstance(y, (ast.ListComp, ast.SetComp, ast.DictComp, ast.GeneratorExp)) and x in y.generators), None)
+                scope = ([owner.elt] if hasattr(owner, "elt") else [owner.key, owner.value]) + list(x.ifs) if owner is not None else list(x.ifs)
+            for s_ in scope:
+                for y in ast.walk(s_):
+                    if isinstance(y, ast.Attribute) and isinstance(y.value, ast.Name) and y.value.id == elem and y.attr in SHAPE_ATTRS and isinstance(y.ctx, ast.Load):
+                        n += 1
+                        atoms = list(guards_at(f, y)) + list(expr_level_guards(f, y))
+                        ok = _in_converting_try(f, y) or any(isinstance(a_, ast.Call) and norm(a_.func) == "isinstance" and a_.args and norm(a_.args[0]) == elem and pol for a_, pol in atoms)
+                        c.ob("R11", ok, f, f"raw-element:{base.id}:{elem}.{y.attr}",
+                             f"an element of {base.id} is used as a mapping only behind an isinstance test" if ok else
+                             f"'{elem}.{y.attr}' is applied to an element of the raw config value '{base.id}' without an isinstance guard or a converting try: "
+                             f"a child of the wrong JSON type (a string, a number, null) surfaces as a raw AttributeError instead of InvalidConfigError", y)
+    c.ob("R11", True, "models + factory", "raw-elements", f"{n} shape-dependent uses of elements of raw config containers", None, nontrivial=False)
